@@ -604,3 +604,19 @@ func init() {
 		regScenario(b+"-inmem", inmem(b))
 	}
 }
+
+func init() {
+	regScenario("stale-suffix-batch1", func() *Scenario {
+		sc := scenarioByName("stale-suffix")
+		sc.Conf = func(i int, c *raft.Config) { c.TrailingLogs = 64; c.MaxAppendEntries = 1 }
+		// no snapshot step: the deposed leader is brought back by plain log replication, one entry per request
+		var steps []Step
+		for _, st := range sc.Steps {
+			if st.Name != "snapshot-new-leader" {
+				steps = append(steps, st)
+			}
+		}
+		sc.Steps = steps
+		return sc
+	})
+}
